@@ -111,6 +111,7 @@ func (l *PeerList) Add(hostPort string) *Peer {
 	}
 
 	p := l.parent.Add(hostPort)
+	verifPoint("peerlist.Add.afterRootAdd", 0)
 	p.addSC()
 	ps := newPeerScore(p, l.scoreCalculator.GetScore(p))
 
